@@ -512,11 +512,16 @@ package chain
 //@   ensures [no-flush-on-error] result != nil ==> !mayHaveCalled("Store.Flush") || callres("Store.Flush") != nil
 //@ func (*Manager).AddBlocks props C19,C04,C01,C03
 //@   requires managerInv(m) && appliedInv() && recordInv()
+//@   requires [error-values] ErrFutureBlock != nil
 //@   ensures [no-notify-on-error] result != nil ==> !mayHaveCalled("funcvalue")
 //@   ensures [no-flush-outside-reorg] !mayHaveCalled("Store.Flush")
 //@   ensures [no-tip-change-without-reorg] !mayHaveCalled("reorgTo") ==> m.tipState == old(m.tipState) && best == old(best) && sheight == old(sheight)
 //@   ensures [rollback] result != nil && called("reorgTo") ==> callarg("reorgTo", 1) == old(m.tipState.Index)
-//@   ensures [rollback] result != nil && called("reorgTo") ==> callarg("reorgTo", 1) == old(m.tipState.Index)
+// the weight of the submitted chain is always compared with the tip's once every block of the call
+// went through (also when every block was known already: a restarted node catches up this way), and
+// a sufficiently heavier chain is always switched to
+//@   ensures [compared] result == nil && len(blocks) > 0 ==> called("SufficientlyHeavierThan")
+//@   ensures [reorg-when-heavier] called("SufficientlyHeavierThan") && callres("SufficientlyHeavierThan") ==> called("reorgTo")
 //@   loop "range blocks"
 //@     invariant m == old(m) && m.store == old(m.store) && m.store != nil && appliedInv() && recordInv()
 //@     invariant applied == old(applied) && best == old(best) && sheight == old(sheight)
